@@ -116,19 +116,28 @@ Section Scatter.
                  (peer_choices engine_ok g a p)
     end.
 
-  (* selectAvailableLeaderStores: any target store without an engine label and whose labels do not reject leaders that has
-     the least leader count; if every such store rejects leaders, any target store without an engine label; 0 if none.
-     (The reject-leader exclusion is the fix "region scatter must not move the leader to a store that rejects leaders".) *)
+  (* selectAvailableLeaderStores (after the fix "region scatter must not pick a target leader that must not receive leaders"):
+     candidates = target stores without an engine label whose target peer is not a learner, that pass
+     StoreStateFilter{TransferLeader} (the leaderTarget row of the generated table: not tombstone / offline / down / paused /
+     disconnected / busy / reject-leader) and that a leader or voter rule selects (`rule_ok`, an input); among them any with the
+     least leader count.  No candidate: the leader stays where it is if its peer stays (as a non-learner); otherwise any target
+     store without an engine label with the least leader count; 0 if there is none. *)
   Definition ordinary_targets (targets : list (Z * role)) : list Z :=
     filter (fun s => match find_store stores s with Some st => lv_empty (engine_of st) | None => false end) (map fst targets).
-  Definition accepting (l : list Z) : list Z :=
-    filter (fun s => match find_store stores s with Some st => negb (s_reject st) | None => false end) l.
-  Definition leader_choices (ldr : gdist) (targets : list (Z * role)) : list Z :=
-    let ord := ordinary_targets targets in
-    let cands := match accepting ord with [] => ord | acc => acc end in
+  Definition leader_candidates (rule_ok : Z -> bool) (targets : list (Z * role)) : list Z :=
+    map fst (filter (fun t => match find_store stores (fst t) with
+                              | Some st => lv_empty (engine_of st) && negb (role_eqb (snd t) Learner) && sft [TransferLeader] st && rule_ok (fst t)
+                              | None => false end) targets).
+  Definition least_loaded (ldr : gdist) (cands : list Z) : list Z :=
     match cands with
     | [] => [0]
     | _ => let m := min_count (get ldr grp) cands in filter (fun c => get ldr grp c =? m) cands
+    end.
+  Definition leader_choices (ldr : gdist) (cur : Z) (rule_ok : Z -> bool) (targets : list (Z * role)) : list Z :=
+    match leader_candidates rule_ok targets with
+    | [] => if existsb (fun t => (fst t =? cur) && negb (role_eqb (snd t) Learner)) targets then [cur]
+            else least_loaded ldr (ordinary_targets targets)
+    | cands => least_loaded ldr cands
     end.
 End Scatter.
 
@@ -147,7 +156,7 @@ Definition store_is (stores : list store) (f : store -> bool) (id : Z) : bool :=
   match find_store stores id with Some s => f s | None => false end.
 
 (* all outcomes of scatterRegion over all processing orders of the ordinary peers and of the tiflash peers *)
-Definition scatter_outcomes (stores : list store) (st : scst) (grp : Z) (guard : Z -> Z -> bool) (r : region) : list outcome :=
+Definition scatter_outcomes (stores : list store) (st : scst) (grp : Z) (guard : Z -> Z -> bool) (rule_ok : Z -> bool) (r : region) : list outcome :=
   let rs := stores_of (peers r) in
   (* peers on unknown stores would make the real code panic; they are never generated *)
   let ordp := filter (fun p => store_is stores is_ordinary (p_store p)) (peers r) in
@@ -159,7 +168,7 @@ Definition scatter_outcomes (stores : list store) (st : scst) (grp : Z) (guard :
           map (fun a2 => Outcome (a_targets a2) ld (a_clash a2))
               (run_order stores grp guard rs (has_engine val_tiflash) (sc_tf st) a1 o2))
           (perms tfp))
-        (leader_choices stores grp (sc_ldr st) (a_targets a1)))
+        (leader_choices stores grp (sc_ldr st) (leader_store r) rule_ok (a_targets a1)))
       (run_order stores grp guard rs is_ordinary (sc_ord st) (Acc [] [] false) o1))
     (perms ordp).
 
@@ -215,6 +224,7 @@ Record case := Case {
   c_stores : list store;
   c_labels : list Z;                      (* replication.location-labels *)
   c_reject : list (Z * lval);             (* label-property reject-leader: the configured entries *)
+  c_rule_ok : list Z;                     (* stores a leader / voter rule of the region's fit selects (all stores without placement rules) *)
   c_region : region;
   c_op : option impl_op;                  (* None only for scatter (operator creation failed / nothing to do) *)
   c_scatter : option scatter_obs
@@ -269,7 +279,7 @@ Definition check_scatter (c : case) (so : scatter_obs) : verdict :=
             (stores_of (peers r)) in
   if negb guard_agrees then VBad "model of the location safeguard disagrees with the real filter"
   else
-    let outs := scatter_outcomes stores (so_before so) (so_group so) g r in
+    let outs := scatter_outcomes stores (so_before so) (so_group so) g (fun x => memZ x (c_rule_ok c)) r in
     match c_op c with
     | Some io =>
         match run_steps (start_state r) (io_steps io) with
@@ -400,8 +410,8 @@ Definition monitor (c : case) : option string :=
           else if negb (rs_leader fin =? rs_leader s0) && negb (store_is (c_stores c) (fun s => negb (s_reject s)) (rs_leader fin))
                   && (negb (is_scatter (c_sched c))
                       (* scatter may have no choice: only when some voter of the result sits on an ordinary store that accepts leaders *)
-                      || existsb (fun p => negb (is_learner p)
-                                           && store_is (c_stores c) (fun s => lv_empty (engine_of s) && negb (s_reject s)) (p_store p)) a)
+                      || existsb (fun p => negb (is_learner p) && memZ (p_store p) (c_rule_ok c)
+                                           && store_is (c_stores c) (fun s => lv_empty (engine_of s) && sft [TransferLeader] s) (p_store p)) a)
           then Some (pre ++ "leader-to-store-rejecting-leaders")
           (* ... nor to a store the leaderTarget table excludes (offline, tombstone, down, disconnected, busy, leader transfer
              paused e.g. by an evict-leader scheduler); grant-leader is judged on the reject-leader clause only (it pauses its own
@@ -410,7 +420,7 @@ Definition monitor (c : case) : option string :=
                   && negb (match c_sched c with SGrantLeader => true | _ => false end)
                   && negb (store_is (c_stores c) (fun s => sft [TransferLeader] s) (rs_leader fin))
                   && (negb (is_scatter (c_sched c))
-                      || existsb (fun p => negb (is_learner p)
+                      || existsb (fun p => negb (is_learner p) && memZ (p_store p) (c_rule_ok c)
                                            && store_is (c_stores c) (fun s => lv_empty (engine_of s) && sft [TransferLeader] s) (p_store p)) a)
           then Some (pre ++ "leader-to-store-not-accepting-leaders")
           else None
